@@ -10,21 +10,23 @@ SPECS2 = ["", "==D.0", ">=D.0", "<D.0", "!=D.0", "~=D.0", ">=D.0,<E.0", "<=D.0",
 
 def skeleton2(rnd, cyc=0.3, symbolic=5):
     """Second-generation PyPI skeleton: two slots per version, requirements on the root package, extras."""
-    p = {"rv2": rnd.choice([0, 1, 1])}
+    np = rnd.choice([3, 3, 4])
+    p = {"rv2": rnd.choice([0, 1, 1]), "np": np}
+    pk = [1, 2, 3] + ([5] if np == 4 else [])  # target numbers of the packages (4 is the root package)
 
     def slot(tag, t, allow_extra=True):
         p[tag + "t"] = t
         p[tag + "r"] = rnd.choice([0, 0, 1, 2, 2, 3, 4, 5, 6, 7, 8, 8, 9, 10, 11])
         p[tag + "m"] = rnd.choice([0, 0, 0, 0, 1, 2, 3, 4, 5])
         p[tag + "e"] = rnd.choice([0, 0, 0, 1, 2, 3]) if (allow_extra and t not in (0, 4)) else 0
-    targets = [1, 2, 3]
+    targets = list(pk)
     rnd.shuffle(targets)
     for s in range(3):
         slot("r%d" % s, targets[s] if (s == 0 or rnd.random() < 0.7) else 0)
         if p["r%dm" % s] >= 3:
             p["r%dm" % s] = 0  # nobody requests extras of the root
-    slot("q0", rnd.choice([0, 1, 2, 3]))
-    for pi in range(3):
+    slot("q0", rnd.choice([0] + pk))
+    for pi in (0, 1, 2, 4):
         nv = rnd.choice([1, 2, 2, 3])
         p["nv%d" % pi] = nv
         used = set()
@@ -36,14 +38,14 @@ def skeleton2(rnd, cyc=0.3, symbolic=5):
                     used.add(key)
                     break
             p["mj" + tag], p["pr" + tag] = key
-            others = [t for t in (1, 2, 3) if t != pi + 1]
+            others = [t for t in pk if t != pi + 1] or [1]
             cands = [0] + others + others + ([4, 4, 4] if rnd.random() < cyc else [])
             t0 = rnd.choice(cands)
             slot("p%ss0" % tag, t0)
             t1 = rnd.choice([0, 0] + [t for t in others + [4] if t != t0])
             slot("p%ss1" % tag, t1)
     left = symbolic
-    tags = ["r0", "r1", "r2", "q0"] + ["p%d%ds%d" % (pi, vi, s) for vi in range(3) for pi in range(3) for s in range(2)]
+    tags = ["r0", "r1", "r2", "q0"] + ["p%d%ds%d" % (pi, vi, s) for vi in range(3) for pi in (0, 1, 2, 4) for s in range(2)]
     for tag in tags:
         nd = (SPECS2[p[tag + "r"]].count("D") + (1 if p[tag + "m"] in (1, 2) else 0)) if p[tag + "t"] else 0
         if nd and left >= 1:
